@@ -288,8 +288,40 @@ func isMajorityVar(fd *ast.FuncDecl, name string, pkgFuncs map[string]*ast.FuncD
 	return found
 }
 
+// domFnName is the helper that names the NNS domain in which committee member i publishes its signature. It is found by its
+// SHAPE (the only function called by the leader tick that has one int parameter and a string result and whose body is `return fmt.Sprintf(..)`),
+// so that renaming it changes nothing; the historical name is the fallback when the shape is not unique.
+var domFnName = "designateNotarySignatureDomainForMember"
+
+func findDomainHelper(pkgFuncs map[string]*ast.FuncDecl, leader *ast.FuncDecl) string {
+	var found []string
+	for name, fd := range pkgFuncs {
+		if fd.Body == nil || len(fd.Body.List) != 1 || fd.Type.Params.NumFields() != 1 || fd.Type.Results == nil || fd.Type.Results.NumFields() != 1 {
+			continue
+		}
+		pt, ok1 := fd.Type.Params.List[0].Type.(*ast.Ident)
+		rt, ok2 := fd.Type.Results.List[0].Type.(*ast.Ident)
+		if !ok1 || !ok2 || pt.Name != "int" || rt.Name != "string" {
+			continue
+		}
+		rs, ok := fd.Body.List[0].(*ast.ReturnStmt)
+		if !ok || len(rs.Results) != 1 {
+			continue
+		}
+		if c, ok := rs.Results[0].(*ast.CallExpr); ok {
+			if sel, ok := c.Fun.(*ast.SelectorExpr); ok && sel.Sel.Name == "Sprintf" && containsCall(leader.Body, name) != nil {
+				found = append(found, name)
+			}
+		}
+	}
+	if len(found) == 1 {
+		return found[0]
+	}
+	return "designateNotarySignatureDomainForMember"
+}
+
 func leaderFacts(fset *token.FileSet, fd *ast.FuncDecl, pkgFuncs map[string]*ast.FuncDecl, out *dfacts) error {
-	const domFn = "designateNotarySignatureDomainForMember"
+	domFn := domFnName
 	var loop ast.Stmt
 	var loopVar string
 	var body *ast.BlockStmt
@@ -593,6 +625,35 @@ func leaderFacts(fset *token.FileSet, fd *ast.FuncDecl, pkgFuncs map[string]*ast
 		}
 		return true
 	})
+	// the same guard written as two consecutive statements: `if X.isPending() {...; return}` directly followed by
+	// `if triedDesignateRoleTx {` (an `else` after a `return` removed)
+	if out.guardMonitor == "" {
+		ast.Inspect(fd.Body, func(x ast.Node) bool {
+			b, ok := x.(*ast.BlockStmt)
+			if !ok {
+				return true
+			}
+			for i := 0; i+1 < len(b.List); i++ {
+				s1, ok1 := b.List[i].(*ast.IfStmt)
+				s2, ok2 := b.List[i+1].(*ast.IfStmt)
+				if !ok1 || !ok2 || s1.Else != nil || s1.Init != nil || len(s1.Body.List) == 0 {
+					continue
+				}
+				if _, isRet := s1.Body.List[len(s1.Body.List)-1].(*ast.ReturnStmt); !isRet {
+					continue
+				}
+				if id, ok := s2.Cond.(*ast.Ident); !ok || id.Name != "triedDesignateRoleTx" {
+					continue
+				}
+				if c, ok := s1.Cond.(*ast.CallExpr); ok {
+					if sel, ok := c.Fun.(*ast.SelectorExpr); ok && sel.Sel.Name == "isPending" {
+						out.guardMonitor = exprStr(fset, sel.X)
+					}
+				}
+			}
+			return true
+		})
+	}
 	if out.guardMonitor == "" {
 		return fmt.Errorf("fact designateGuardMonitor: guard `if <monitor>.isPending() ... else if triedDesignateRoleTx` not found in initDesignateNotaryRoleAsLeaderTick (%s)", where(fd.Body))
 	}
@@ -874,6 +935,7 @@ func deployFacts(repo, outPath string) error {
 			}
 		}
 	}
+	domFnName = findDomainHelper(pkgFuncs, lf)
 	if err := leaderFacts(fset, lf, pkgFuncs, &out); err != nil {
 		if !strings.HasPrefix(err.Error(), "fact ") {
 			err = fmt.Errorf("fact leaderLoopLo/leaderLoopHi/leaderDomainOff (collection loop of initDesignateNotaryRoleAsLeaderTick, deploy/notary.go:%d-%d): %w",
@@ -885,9 +947,9 @@ func deployFacts(repo, outPath string) error {
 	if sf == nil {
 		return fmt.Errorf("initDesignateNotaryRoleAsSignerTick not found")
 	}
-	sc := containsCall(sf.Body, "designateNotarySignatureDomainForMember")
+	sc := containsCall(sf.Body, domFnName)
 	if sc == nil {
-		return fmt.Errorf("signer: no call of designateNotarySignatureDomainForMember")
+		return fmt.Errorf("signer: no call of the per-member signature domain helper (%s)", domFnName)
 	}
 	// prm.localAccCommitteeIndex (+c)
 	arg := sc.Args[0]
